@@ -388,6 +388,66 @@ def gen_tree(rng, depth, vals):
     else: v = ev if (ev != ev or ev == 0) else math.copysign(1.0, ev)   # Math.sign
     return "%s(%s)" % (u, es), v
 
+
+DIGITS36 = "0123456789abcdefghijklmnopqrstuvwxyz"
+
+def to_radix(v, R):
+    if v == 0: return "0"
+    out = ""
+    while v > 0:
+        out = DIGITS36[v % R] + out
+        v //= R
+    return out
+
+def int_to_canon(v, neg=False):
+    """exact big integer -> nearest double (ties to even; python's int->float) -> canonical token; -0 when neg and zero"""
+    try:
+        x = float(v)
+    except OverflowError:
+        x = math.inf
+    if neg:
+        x = -x
+    return py_canon_of_bits(f2b(x))
+
+def radix_boundary_cases(rng, quick):
+    """digit strings AT the int64 overflow boundaries of every radix 2..36, for parseInt / Number / unary plus / literals;
+    judged by exact big-integer -> nearest-double (python ints)"""
+    M = (1 << 63) - 1
+    out = []          # (js source, expected token)
+    for R in range(2, 37):
+        q = M // R
+        vals = {q - 1, q, q + 1, q + 2, M - 1, M, M + 1, M + 2, (1 << 64) - 1, 1 << 64, (1 << 64) + 1, P53, P53 + 1, P53 + 2,
+                (q + 1) * R - 1, (q + 1) * R, (q + 1) * R + 1, q * R + (R - 1), (q + 2) * R}
+        for v in (q, q + 1, M, M + 1, 1 << 64):
+            for d in (0, 1, R - 1):
+                vals.add(v * R + d)
+        for v in (q + 1, M + 1):
+            vals.add(v * R * R + rng.randrange(R * R))
+        for _ in range(2 if quick else 12):
+            vals.add(rng.randrange(q - 50, q + 50)); vals.add(rng.randrange(M - 50, M + 50) ); vals.add(rng.randrange(q * R - 40, q * R + 2 * R + 40))
+        for v in sorted(vals):
+            t = to_radix(v, R)
+            tu = t.upper() if rng.random() < 0.3 else t
+            out.append(('parseInt("%s",%d)' % (tu, R), int_to_canon(v)))
+            out.append(('parseInt("-%s",%d)' % (t, R), int_to_canon(v, True)))
+            if rng.random() < 0.4:
+                junk = "!" if R == 36 else DIGITS36[R]          # first character that is not a digit in this radix
+                out.append(('parseInt(" +%s%s9",%d)' % (t, junk, R), int_to_canon(v)))
+            if rng.random() < 0.3:
+                out.append(('parseInt("000%s",%d)' % (t, R), int_to_canon(v)))
+            if R == 16:
+                out += [('parseInt("0x%s")' % t, int_to_canon(v)), ('parseInt("-0X%s",16)' % tu, int_to_canon(v, True)), ('parseInt("0x%s",0)' % t, int_to_canon(v)),
+                        ('Number("0x%s")' % tu, int_to_canon(v)), ('+"0X%s"' % t, int_to_canon(v)), ('0x%s' % t, int_to_canon(v)), ('-0X%s' % tu, int_to_canon(v, True))]
+            if R == 10:
+                out += [('parseInt("%s")' % t, int_to_canon(v)), ('parseInt("-%s")' % t, int_to_canon(v, True)), ('Number("%s")' % t, int_to_canon(v)),
+                        ('+"%s"' % t, int_to_canon(v)), ('-"%s"' % t, int_to_canon(v, True)), ('Number("-%s")' % t, int_to_canon(v, True)),
+                        ('%s' % t, int_to_canon(v)), ('-%s' % t, int_to_canon(v, True)), ('JSON.parse("%s")' % t, int_to_canon(v)), ('parseFloat("%s")' % t, int_to_canon(v))]
+            if R == 8:
+                out += [('Number("0o%s")' % t, int_to_canon(v)), ('+"0O%s"' % t, int_to_canon(v)), ('0o%s' % t, int_to_canon(v))]
+            if R == 2:
+                out += [('Number("0b%s")' % t, int_to_canon(v)), ('+"0B%s"' % t, int_to_canon(v)), ('0b%s' % t, int_to_canon(v))]
+    return out
+
 STR_POOL = ["", " ", "0", "-0", "+0", "6.0", "6.", ".6", ".", "-", "+", "1e3", "1E3", "1e+3", "1e-3", "1e", "e3", "1e400", "-1e400", "1e-400", "-1e-400",
             "Infinity", "+Infinity", "-Infinity", "infinity", "INFINITY", "Inf", "inf", "+inf", "-Inf", "NaN", "nan", "0x10", "0X1f", "0x", "0xg", "0x-5", "0x+5", "-0x10", "+0x10",
             "0b101", "0B11", "0b2", "0b", "0b-1", "0b+1", "0o17", "0O7", "0o8", "0o", "0o-7", "0x1p3", "0x.8", "1_000", "0x1_0", "1__0", "_1", "00x1", "010", "09", "-010",
@@ -450,7 +510,7 @@ def main(ctx):
     tie_errs = [e for e in errs if os.path.basename(e["file"]) == "Tie.lean" or "Generated" in e["file"]]
     tie_bad = {e["decl"] for e in tie_errs}
     for t in ("numSites_ok", "wrappers_ok", "wrappers_canonical", "maxInt_tie", "whitespace_tie", "canonicalisers_tie", "conversions_tie",
-              "mul_tie", "strnum_tie", "identity_tie", "includes_tie", "mathsign_tie"):
+              "mul_tie", "strnum_tie", "identity_tie", "includes_tie", "mathsign_tie", "parseint_tie"):
         # Tie theorems are `rfl`/`decide` over regenerated data: checked by the lake build above; a failing one is already a
         # broken obligation named lean:…Tie.lean:<theorem>; here the ones that still check are recorded as discharged
         if regen_ok and t not in tie_bad and not any(os.path.basename(e["file"]).startswith("C05_") or e["decl"] in ("?", "lake build") for e in tie_errs):
@@ -626,6 +686,13 @@ def main(ctx):
         lines.append(l)
         sv, svz, seq = spec_identity(tok_to_float(k1), tok_to_float(k2))
         js_expect[l] = ("o:string:" + obs_expected(sv, svz, seq), "treepair")
+    # parseInt / Number / literals AT the int64 overflow boundaries of every radix 2..36 (exact big-integer oracle)
+    rb = radix_boundary_cases(rng, quick)
+    for src, exp in rb:
+        l = "js " + src
+        if l not in js_expect:
+            lines.append(l)
+            js_expect[l] = (exp, "radix-boundary")
     # ToValue of Go numeric types
     gov = []
     for t, lo, hi in [("int8", -128, 127), ("int16", -32768, 32767), ("int32", -(1 << 31), (1 << 31) - 1), ("int64", -(1 << 63), (1 << 63) - 1), ("int", -(1 << 63), (1 << 63) - 1),
@@ -872,7 +939,7 @@ def main(ctx):
                 elif re.fullmatch(r"js parseInt\('-0+'\)", l) and out == "i0" and exp == "f8000000000000000":
                     sig = "parseInt-negative-zero-loses-sign"
                 viol(sig or ("producer:wrong-value:" + cls), "script `%s` gives %s, spec %s" % (l[3:], out, exp), {"kind": "program", "source": l[3:], "expected": exp, "observed": out})
-            ctx.nontriv(("js", cls, l[3:60] if cls == "producer" else (out[0], exp)))
+            ctx.nontriv(("js", cls, l[3:60] if cls == "producer" else ((l[3:12], len(l), exp) if cls == "radix-boundary" else (out[0], exp))))
         elif kind == "gov":
             exp = gov_expect.get(l)
             if exp is not None and out != exp:
@@ -901,7 +968,7 @@ def main(ctx):
         ctx.sample("%s -> %s" % (l[:100], o))
     stats["branches"] = dict(sorted(stats["branches"].items()))
     ctx.stats.update(stats)
-    ctx.stats["sizes"] = {"trees": len(trees), "tree_pairs": len(tree_pairs), "lines": len(lines), "bit_patterns": len(bits), "ints": len(ints), "strings": len(strs), "scripts": len(jsc), "corpus": len(corpus),
+    ctx.stats["sizes"] = {"radix_boundary": len(rb), "trees": len(trees), "tree_pairs": len(tree_pairs), "lines": len(lines), "bit_patterns": len(bits), "ints": len(ints), "strings": len(strs), "scripts": len(jsc), "corpus": len(corpus),
                           "exhaustive": "no (sampled; boundary classes enumerated)"}
     return ctx.finish(level="proof",
                       rule="one case = one protocol line (a bit pattern / int / operand pair / string / script through one entry point); distinct non-trivial = "
